@@ -230,6 +230,45 @@ pub fn run_case(case: &mut Case) {
                     .set("observed", out.show()),
             );
         }
+        // the help screen reports the state of the first declared variable of an item the way the
+        // parser sees it (an empty value is a value)
+        if ri % 2 == 0 {
+            let (hout, _) = b.run_opts(case, &[b"--help".to_vec()], "help+environment", &named, 20);
+            if let Outcome::Stdout { text, .. } = &hout {
+                let mut items = Vec::new();
+                b.spec.root.level_items(&mut items);
+                for it in items {
+                    let var = match it.names.envs.first() {
+                        Some(v) => v,
+                        None => continue,
+                    };
+                    let tag = format!("env:{}", var);
+                    if !text.contains(&tag) {
+                        continue;
+                    }
+                    case.rep.count("help-variable-states-checked");
+                    let set = state.contains_key(var);
+                    let shown_set = text.contains(&format!("{}: set", tag))
+                        || text.contains(&format!("{} = ", tag));
+                    let shown_unset = text.contains(&format!("{}: not set", tag))
+                        || text.contains(&format!("{}: N/A", tag));
+                    if (set && !shown_set) || (!set && !shown_unset) {
+                        case.rep.violation(
+                            "help-shows-wrong-variable-state",
+                            "help",
+                            case.index,
+                            b.detail(
+                                &[b"--help".to_vec()],
+                                "help+environment",
+                                &format!("{} shown as {}", tag, if set { "set" } else { "not set" }),
+                                &hout,
+                            )
+                            .set("environment", env_json(&state)),
+                        );
+                    }
+                }
+            }
+        }
         // undeclared variables never influence the outcome
         for (k, v) in &undeclared {
             std::env::set_var(k, OsString::from_vec(v.clone()));
